@@ -127,15 +127,26 @@ func c08Text(r *h.Result, rng *h.Rng, n int, g mgen) error {
 }
 
 func c08(r *h.Result, rng *h.Rng, tier string, replay string) error {
+	if replay != "" {
+		return c08Replay(r, rng, replay)
+	}
 	n := 400
 	if tier != "quick" {
 		n = 10000
 	}
 	r.Rule = "text: grammar-directed metric queries (range aggregation rate/count_over_time/bytes_rate/bytes_over_time, or rate/sum/avg/max/min/first/last_over_time over `| unwrap`; optional vector aggregation sum/min/max/avg/count; optional topk/bottomk with k in 0..5; by/without in prefix, suffix and both positions; comparisons; inner selector = C07 generator) × contexts with step <, =, > range; every case is non-trivial; distinct by (query, context)"
+	// the textual op tables compared with Gen.LogQLOps are what the model renders
+	r.Stream("optext: Sql.renderExpr of every entry of the model's function → SQL tables equals its text form (the form proved equal to the regenerated switch tables)")
+	if err := r.Compare("optext", []string{"c08optext"}, []string{"ok"}, nil); err != nil {
+		return err
+	}
 	if err := c08Text(r, rng.Fork(), n, mgen{extraFns: true, ms: tier != "quick"}); err != nil {
 		return err
 	}
 	if err := c08Chain(r, rng.Fork(), n, mgen{extraFns: true, ms: tier != "quick"}); err != nil {
+		return err
+	}
+	if err := c08Stage(r, rng.Fork(), n, mgen{extraFns: true, ms: tier != "quick"}); err != nil {
 		return err
 	}
 	np := 400
